@@ -100,7 +100,7 @@ func (e *schedEngine) Plan(seed uint64, tier string) int {
 
 var scImageOps = []string{"Hash", "HashSHA1", "HashSHA512", "Bytes", "Open", "Signatures", "Verify", "VerifyOther"}
 var scDBOps = []string{"Bytes", "Marshal", "BytesExists", "BytesExistsMiss", "BytesExistsPEM", "SigDataExists", "Exists"}
-var scUpdateOps = []string{"Marshal", "Bytes", "DescMarshal", "DescVerify", "CallerEditsPayload", "DescZeroTimeMarshal"}
+var scUpdateOps = []string{"Marshal", "Bytes", "DescMarshal", "DescVerify", "CallerEditsPayload", "DescZeroTimeMarshal", "CallerReusesParseBuffer"}
 var scPkcs7Ops = []string{"Verify", "VerifyOther", "HasCertificate"}
 var scAuthcodeOps = []string{"Verify", "VerifyOther"}
 var scListOps = []string{"Bytes", "Exists", "ExistsMiss", "ExistsInList", "CmpHeader", "ExistsInListLong", "ExistsInListLongMiss"}
@@ -645,6 +645,8 @@ func (e *schedEngine) build(c scCfg, x *X, plane *Plane) (mk func() *scObject) {
 			var desc *signature.EFIVariableAuthentication2
 			var upd efivar.Marshallable
 			var mine *mutVal // the caller's own payload object: it goes on living after the update was produced
+			var parseBuf *bytes.Buffer
+			var parseBacking []byte
 			if pv := inBubble(x.T, at.UTC(), "", func() {
 				var err error
 				// payloads of several sizes: a hash list, the empty value that clears a variable, a few bytes
@@ -661,16 +663,11 @@ func (e *schedEngine) build(c scCfg, x *X, plane *Plane) (mk func() *scObject) {
 				// the descriptor as a caller gets it back from storage: parsed out of a buffer, and the caller goes on to use
 				// that buffer for the next thing it reads
 				var parsed signature.EFIVariableAuthentication2
-				buf := bytes.NewBuffer(append([]byte(nil), upd.Bytes()...))
-				backing := buf.Bytes()
-				if err := parsed.Unmarshal(buf); err != nil {
+				parseBuf = bytes.NewBuffer(append([]byte(nil), upd.Bytes()...))
+				parseBacking = parseBuf.Bytes()
+				if err := parsed.Unmarshal(parseBuf); err != nil {
 					harnessf("sched: parse descriptor: %v", err)
 				}
-				for k := range backing {
-					backing[k] = 0xEE
-				}
-				buf.Reset()
-				buf.WriteString("the next variable the caller reads")
 				desc = &parsed
 			}
 			type both struct {
@@ -701,6 +698,19 @@ func (e *schedEngine) build(c scCfg, x *X, plane *Plane) (mk func() *scObject) {
 					var b bytes.Buffer
 					dz.Marshal(&b)
 					return scOwnBuffer(&b)
+				case "CallerReusesParseBuffer":
+					// not an operation on the descriptor: the caller reads the next variable into the buffer the descriptor
+					// was once parsed from. The descriptor is a value of its own.
+					o.hmu.Lock()
+					if parseBuf != nil {
+						for k := range parseBacking {
+							parseBacking[k] = 0xEE
+						}
+						parseBuf.Reset()
+						parseBuf.WriteString("the next variable the caller reads")
+					}
+					o.hmu.Unlock()
+					return scResult(nil, nil)
 				case "CallerEditsPayload":
 					// not an operation on the update: the caller prepares its next update in the object it once passed as
 					// payload. The update that was handed out is a value of its own and must not notice.
